@@ -23,7 +23,8 @@ from py2lean import Untranslatable
 import imptrans
 from imptrans import Imp, ImpSpec, _assigned, _escapes
 
-LEAN_T = {'R': 'α', 'OR': 'Option α', 'B': 'Bool', 'S': 'String', 'D': 'List (String × α)', 'T3': 'α × α × α', 'LT3': 'List (α × α × α)'}
+LEAN_T = {'R': 'α', 'OR': 'Option α', 'B': 'Bool', 'S': 'String', 'D': 'List (String × α)', 'T3': 'α × α × α', 'LT3': 'List (α × α × α)',
+          'LR': 'List α', 'LN': 'List Nat', 'F': 'α → α'}
 ELEM = {'LT3': 'T3'}
 
 
@@ -95,6 +96,16 @@ class ImpR(Imp):
         if isinstance(n, ast.Tuple):
             parts = [self.expr(e, env) for e in n.elts]
             return '(%s)' % ', '.join(p for p, _ in parts), tuple(t for _, t in parts)
+        if isinstance(n, ast.Subscript):
+            a, ta = self.expr(n.value, env)
+            if ta == 'LR' and isinstance(n.slice, ast.UnaryOp) and isinstance(n.slice.op, ast.USub) and isinstance(n.slice.operand, ast.Constant) and n.slice.operand.value == 1:
+                return '(NpR.last %s)' % a, 'R'          # x[-1]
+            if ta == 'LR' and isinstance(n.slice, ast.Constant) and n.slice.value == 0:
+                return '(NpR.first %s)' % a, 'R'         # x[0]
+            i, ti = self.expr(n.slice, env)
+            if (ta, ti) == ('LR', 'LN'):
+                return '(NpR.takeIdx %s %s)' % (a, i), 'LR'   # x[index array]
+            raise Untranslatable('subscript %s[%s]' % (ta, ti))
         return Imp.expr(self, n, env)
 
     def binop(self, n, env):
@@ -107,6 +118,8 @@ class ImpR(Imp):
             raise Untranslatable('operator in %s' % ast.unparse(n)[:60])
         a, ta = self.expr(n.left, env)
         b, tb = self.expr(n.right, env)
+        if ta == 'LR' and isinstance(n.op, ast.Div):
+            return '(NpR.divVS %s %s)' % (a, self.need_real(b, tb, n.right)), 'LR'       # array / scalar
         a = self.need_real(a, ta, n.left)
         b = self.need_real(b, tb, n.right)
         return '(%s %s %s)' % (a, ops[type(n.op)], b), 'R'
@@ -152,10 +165,39 @@ class ImpR(Imp):
             a, ta = self.expr(n.args[0], env)
             b, tb = self.expr(n.args[1], env)
             return '(RealLike.atan2 %s %s)' % (self.need_real(a, ta, n.args[0]), self.need_real(b, tb, n.args[1])), 'R'
+        if f == 'numpy.array' and len(n.args) == 1 and not n.keywords:
+            a, t = self.expr(n.args[0], env)
+            if t == 'LR':
+                return a, t
+        if f == 'numpy.unique' and len(n.args) == 1 and [k.arg for k in n.keywords] == ['return_index'] and ast.unparse(n.keywords[0].value) == 'True':
+            a, t = self.expr(n.args[0], env)
+            if t != 'LR':
+                raise Untranslatable('unique of %s' % t)
+            note = ('`numpy.unique(c, return_index=True)` on the cumulative integrals `c` (non-decreasing for a non-negative density: recorded precondition) is '
+                    '`NpR.uniqueFirst`: the first element of every run of equal values, with its index')
+            if note not in self.notes:
+                self.notes.append(note)
+            return '(NpR.uniqueFirst %s)' % a, ('LR', 'LN')
+        if f == 'numpy.random.uniform' and len(n.args) == 3 and not n.keywords and self.spec.uniform_param:
+            a, ta = self.expr(n.args[0], env)
+            b, tb = self.expr(n.args[1], env)
+            a, b = self.need_real(a, ta, n.args[0]), self.need_real(b, tb, n.args[1])
+            self.notes.append('`numpy.random.uniform(a, b, size)` is a + (b − a)·%s with %s the uniform variate in [0, 1) (parameter)' % (self.spec.uniform_param, self.spec.uniform_param))
+            return '(%s + (%s - %s) * %s)' % (a, b, a, self.spec.uniform_param), 'R'
+        if f in self.spec.funs and len(n.args) == 1 and not n.keywords:
+            a, t = self.expr(n.args[0], env)
+            return '(%s %s)' % (self.spec.funs[f], self.need_real(a, t, n.args[0])), 'R'
         if f in self.spec.calls and not n.keywords:
             lean, rt, lead = self.spec.calls[f]
             args = [self.expr(a, env) for a in n.args]
             return '(%s %s)' % (lean, ' '.join(list(lead) + [a for a, _ in args])), rt
+        if f in self.spec.pair_ctors and len(n.args) >= 2:
+            a, ta = self.expr(n.args[0], env)
+            b, tb = self.expr(n.args[1], env)
+            if (ta, tb) != ('LR', 'LR'):
+                raise Untranslatable('%s on %s, %s' % (f, ta, tb))
+            self.notes.append('`%s(x, y, …)`: the value is the pair of node arrays handed to the spline constructor (labels are not part of it)' % f)
+            return '(%s, %s)' % (a, b), ('LR', 'LR')
         if f == 'numpy.mod' and len(n.args) == 2 and not n.keywords and isinstance(n.args[1], ast.Constant) and n.args[1].value == 1:
             a, ta = self.expr(n.args[0], env)
             a = self.need_real(a, ta, n.args[0])
@@ -250,6 +292,12 @@ class ImpR(Imp):
                     # an optional variable gets a number: from here on it is bound
                     return '%slet %s : %s := %s\n' % (pad, t.id, self.lt('R'), v) + nxt(dict(env, **{t.id: 'R'}))
                 return '%slet %s : %s := %s\n' % (pad, t.id, self.lt(tv), v) + nxt(dict(env, **{t.id: tv}))
+            if isinstance(t, ast.Tuple) and isinstance(s.value, ast.Call) and all(isinstance(e, ast.Name) for e in t.elts):
+                v, tv = self.expr(s.value, env)
+                if not isinstance(tv, tuple) or len(tv) != len(t.elts):
+                    raise Untranslatable('unpacking of %s' % (tv,))
+                names = [e.id for e in t.elts]
+                return '%slet (%s) := %s\n' % (pad, ', '.join(names), v) + nxt(dict(env, **dict(zip(names, tv))))
             if isinstance(t, ast.Tuple) and isinstance(s.value, ast.Tuple) and len(t.elts) == len(s.value.elts) and all(isinstance(e, ast.Name) for e in t.elts):
                 vals = [self.expr(v, env) for v in s.value.elts]
                 names = [e.id for e in t.elts]
@@ -278,6 +326,21 @@ class ImpR(Imp):
             self.set_rtype(t)
             self.returns.append(len(self.returns))
             return pad + ('RETURN⟪%s⟫' % v)
+        if isinstance(s, ast.If) and ast.unparse(s.test) in self.spec.opaque_defaults:
+            self.notes.append('not part of the definition: `if %s: …`' % ast.unparse(s.test))
+            return nxt(env)
+        # if x is None: v = A  else: v = B   (x optional): a case distinction on x, with x bound in the second branch
+        if isinstance(s, ast.If) and isinstance(s.test, ast.Compare) and isinstance(s.test.left, ast.Name) and env.get(s.test.left.id) == 'OR' \
+                and len(s.test.ops) == 1 and isinstance(s.test.ops[0], ast.Is) and isinstance(s.test.comparators[0], ast.Constant) \
+                and s.test.comparators[0].value is None and len(s.body) == 1 and len(s.orelse) == 1 \
+                and all(isinstance(b, ast.Assign) and len(b.targets) == 1 and isinstance(b.targets[0], ast.Name) for b in (s.body[0], s.orelse[0])) \
+                and s.body[0].targets[0].id == s.orelse[0].targets[0].id:
+            x, tgt = s.test.left.id, s.body[0].targets[0].id
+            a, ta = self.expr(s.body[0].value, env)
+            b, tb = self.expr(s.orelse[0].value, dict(env, **{x: 'R'}))
+            if ta != tb:
+                raise Untranslatable('branches of different types: %s, %s' % (ta, tb))
+            return '%slet %s : %s := match %s with\n%s  | none => %s\n%s  | some %s => %s\n' % (pad, tgt, self.lt(ta), x, pad, a, pad, x, b) + nxt(dict(env, **{tgt: ta}))
         if isinstance(s, ast.If):
             # the default idiom: if x is None: x = e
             if not s.orelse and len(s.body) == 1 and isinstance(s.body[0], ast.Assign) and isinstance(s.test, ast.Compare) \
@@ -385,8 +448,12 @@ class ImpR(Imp):
 
 
 class RSpec(ImpSpec):
-    def __init__(self, *a, guards=(), skip_stmts=(), live=(), **k):
+    def __init__(self, *a, guards=(), skip_stmts=(), live=(), funs=None, pair_ctors=(), opaque_defaults=(), uniform_param=None, **k):
         ImpSpec.__init__(self, *a, **k)
+        self.uniform_param = uniform_param         # the parameter that stands for the uniform variate of `numpy.random.uniform(a, b, size)`
+        self.funs = dict(funs or {})               # call text of a function-valued attribute (self.cdf) -> lean parameter of type α → α
+        self.pair_ctors = tuple(pair_ctors)        # constructors whose value is the pair of their first two (array) arguments
+        self.opaque_defaults = tuple(opaque_defaults)   # conditions of `if <cond>: <opaque name> = …` blocks that do not take part in the value
         self.guards = tuple(guards)          # head conditions `if <cond>: return None` recorded as preconditions
         self.skip_stmts = tuple(skip_stmts)  # statements (source text) about arrays the definition does not interpret; what they define enters through `bind`
         self.live = tuple(live)
@@ -395,6 +462,18 @@ class RSpec(ImpSpec):
 SPECS = [
     RSpec('ixpeobssim.srcmodel.polarization', 'harmonic_addition', 'harmonic_addition', [('params', 'LT3')],
           note='C20: the accumulators of the harmonic addition theorem (flux, numerator and denominator of the phase, the double loop for the squared amplitude)'),
+    # --- the tabulated-pdf sampler (core/spline.py, core/rand.py, C15): the partial integrals `self.integral(xmin, x_i)` are the parameter `ints`
+    RSpec('ixpeobssim.core.spline', 'xUnivariateSpline.build_cdf', 'build_cdf', [('x', 'LR'), ('ints', 'LR')],
+          bind={'self.x': 'x', '[self.integral(_xmin, _xbar) for _xbar in self.x]': 'ints'}, skip_stmts=('_xmin = self.xmin()',),
+          pair_ctors=('spline_class',), opaque_defaults=('spline_class is None',),
+          note='C15: the nodes of the cumulative function: (x_i, I_i / I_last) with I_i the integral of the density up to x_i'),
+    RSpec('ixpeobssim.core.spline', 'xUnivariateSpline.build_ppf', 'build_ppf', [('x', 'LR'), ('ints', 'LR')],
+          bind={'self.x': 'x', 'numpy.array([self.integral(_xmin, _xbar) for _xbar in self.x])': 'ints'}, skip_stmts=('_xmin = self.xmin()',),
+          pair_ctors=('spline_class',), opaque_defaults=('spline_class is None',),
+          note='C15: the nodes of the quantile function: the distinct cumulative values, normalised, against the first abscissa that reaches each of them'),
+    RSpec('ixpeobssim.core.rand', 'xUnivariateGenerator.rvs_bounded', 'rvs_bounded', [('cdf', 'F'), ('ppf', 'F'), ('rvmin', 'OR'), ('rvmax', 'OR'), ('u01', 'R')],
+          funs={'self.cdf': 'cdf', 'self.ppf': 'ppf'}, uniform_param='u01',
+          note='C15: bounded sampling: the quantile function evaluated at a uniform variate between cdf(rvmin) and cdf(rvmax) (0 and 1 for missing bounds)'),
     # --- the ephemeris (srcmodel/ephemeris.py, C17): every method takes the attributes of `self` as leading parameters (`self_…`: a local of the same name must not capture them)
     RSpec('ixpeobssim.srcmodel.ephemeris', 'xEphemeris._dt', 'ephemeris_dt', [('self_met0', 'R'), ('met', 'R')], bind={'self.met0': 'self_met0'}),
     RSpec('ixpeobssim.srcmodel.ephemeris', 'xEphemeris.nu', 'ephemeris_nu', [('self_met0', 'R'), ('self_nu0', 'R'), ('self_nudot0', 'R'), ('self_nuddot', 'R'), ('met', 'R')],
@@ -440,7 +519,7 @@ def translate(sp):
 
 
 def lean_file(golden):
-    out = ['import IxpeVerif.Num', '/-! Generated by translator/realimp.py from the /repo working tree — do not edit.',
+    out = ['import IxpeVerif.Num', 'import IxpeVerif.Model.NpR', '/-! Generated by translator/realimp.py from the /repo working tree — do not edit.',
            'Loops, conditionals, optional values and literal-key dictionaries of the scalar bookkeeping, statement by statement, over `RealLike`. -/',
            'set_option linter.unusedVariables false', 'namespace Np',
            '/-- a `for` loop: the state after the body has run for every element, in order -/',
